@@ -17,7 +17,7 @@ ASSUMPTIONS = [
     "reference matcher written from the statement: service ids equal; every further field equal or wildcard on the side allowed to carry it",
     "entries handed to the matchers are built field by field by the harness (not by the library's create_* helpers), the conversions are checked separately",
 ]
-BUDGET = {"quick": {"examples": 3200, "shrink": 200}, "thorough": {"examples": 160000, "shrink": 1000}}
+BUDGET = {"quick": {"examples": 16000, "shrink": 200}, "thorough": {"examples": 480000, "shrink": 1000}}
 EXHAUSTIVE = "54 x 54 description pairs x 4 eventgroup sets x 3 eventgroup ids = 34992 cases, each checking all matching functions and laws"
 
 WI, WM, WN = 0xFFFF, 0xFF, 0xFFFFFFFF
